@@ -137,6 +137,9 @@ GUARDS = [
     "pr(0, kd < 1) and pr(1, x != 0) and pr(2, 10 // x > 100)",
     "kd < 1 and x != 0 and pr(0, 10 // x > 100)",
     "kd > 5 or pr(0, n is None) or pr(1, n + 1 < 0)",
+    # LATE is a variable of the enclosing scope that is unbound when the function is called; Python does not read it here
+    "pr(0, x != 0) and pr(1, LATE > 0) and pr(2, False)",
+    "pr(0, x == 0) or pr(1, LATE > 0 and False)",
 ]
 
 
